@@ -87,7 +87,7 @@ func init() {
 			ctx context.Context,
 			err error,
 		) (msg string, safeDetails []string, payload proto.Message) {
-			return "", nil, nil
+			return err.Error(), nil, nil
 		},
 	)
 	errbase.RegisterMultiCauseDecoder(
